@@ -447,6 +447,42 @@ def aux_pairing(ctx):
               "re-entry of the main frame the later clauses and lower frames are skipped forever and the aux is never started again")
 
 
+def frame_check_enter(ctx, rule="T1-checkEnter"):
+    """Frame.checkEnter: before-enter conditions, auxiliary ownership and first-frame checks (shared by C08 and C09)"""
+    # Frame.checkEnter
+    fr = ctx.fn("framing", "Frame.checkEnter")
+    R = FuncView(ctx, fr)
+    rets = [n for n in R.cfg.nodes if n.kind == "return"]
+    true_rets = [r for r in rets if isinstance(r.ast.value, ast.Constant) and r.ast.value.value is True]
+    false_rets = [r for r in rets if isinstance(r.ast.value, ast.Constant) and r.ast.value.value is False]
+    bl = R.need(loops_over(R, "self.beacts"), "loop over self.beacts")
+    al = R.need(loops_over(R, "self.auxes"), "loop over self.auxes in Frame.checkEnter")
+    ok = bool(true_rets) and len(true_rets) + len(false_rets) == len(rets)
+    for r in true_rets:
+        for h in (bl[0], al[0]):
+            ok = ok and not (R.cfg.reachable(R.cfg.entry.id, removed_edges=R.cfg.edges_from(h.id, "done")) & {r.id})
+    ctx.check(ok, rule, fr, "Frame.checkEnter returns True only after both loops ran to completion",
+              "entry is allowed only when every before-enter condition and every auxiliary check passed")
+    nt = R.tests(lambda t: isinstance(t, ast.UnaryOp) and isinstance(t.op, ast.Not) and isinstance(t.operand, ast.Call)
+                 and dotted(t.operand.func) == "need")
+    ctx.check(bool(nt) and any(R.dominated_by_edge([r], nt[0], "T") for r in false_rets), rule, fr,
+              "if not need(): return False", "the first unsatisfied before-enter condition refuses entry")
+    ot = R.tests(lambda t: isinstance(t, ast.BoolOp) and isinstance(t.op, ast.And) and
+                 {src(v) for v in t.values} == {"aux.main", "aux.main is not self", "aux.main not in exits"})
+    ctx.check(bool(ot) and any(R.dominated_by_edge([r], ot[0], "T") for r in false_rets), rule, fr,
+              "aux.main and aux.main is not self and aux.main not in exits => False",
+              "a frame whose original auxiliary is owned by another frame that is not being exited must not be entered")
+    st = R.tests(lambda t: isinstance(t, ast.UnaryOp) and isinstance(t.op, ast.Not) and isinstance(t.operand, ast.Call)
+                 and dotted(t.operand.func) == "aux.checkStart")
+    ctx.check(bool(st) and any(R.dominated_by_edge([r], st[0], "T") for r in false_rets), rule, fr,
+              "if not aux.checkStart(): return False", "an auxiliary whose first-frame conditions fail refuses entry of its main frame")
+    ctx.check(bool(nt) and every_iteration_passes(R, bl[0], nt), rule, fr,
+              "every before-enter condition is evaluated", "an iteration of the beacts loop skips the condition")
+    ctx.check(bool(ot) and bool(st) and every_iteration_passes(R, al[0], ot) and every_iteration_passes(R, al[0], st),
+              rule, fr, "every auxiliary gets the ownership test and checkStart",
+              "an iteration of the auxes loop skips the ownership test or the first-frame check")
+
+
 # ------------------------------------------------------------------------ C08
 def entry_guards(ctx):
     ctx.rule("T1-guard", "in Transiter.action every effect (tracts, exit, rexit, renter, enter, activate, any "
@@ -512,38 +548,7 @@ def entry_guards(ctx):
     ctx.check(len(rr) == 1 and src(rr[0].value).replace(" ", "") == "self.checkEnter(enters=self.first.outline)",
               "T1-checkEnter", cs, "checkStart = checkEnter(enters=self.first.outline)",
               "starting a framer checks the entry conditions of its first frame's whole outline")
-    # Frame.checkEnter
-    fr = ctx.fn("framing", "Frame.checkEnter")
-    R = FuncView(ctx, fr)
-    rets = [n for n in R.cfg.nodes if n.kind == "return"]
-    true_rets = [r for r in rets if isinstance(r.ast.value, ast.Constant) and r.ast.value.value is True]
-    false_rets = [r for r in rets if isinstance(r.ast.value, ast.Constant) and r.ast.value.value is False]
-    bl = R.need(loops_over(R, "self.beacts"), "loop over self.beacts")
-    al = R.need(loops_over(R, "self.auxes"), "loop over self.auxes in Frame.checkEnter")
-    ok = bool(true_rets) and len(true_rets) + len(false_rets) == len(rets)
-    for r in true_rets:
-        for h in (bl[0], al[0]):
-            ok = ok and not (R.cfg.reachable(R.cfg.entry.id, removed_edges=R.cfg.edges_from(h.id, "done")) & {r.id})
-    ctx.check(ok, "T1-checkEnter", fr, "Frame.checkEnter returns True only after both loops ran to completion",
-              "entry is allowed only when every before-enter condition and every auxiliary check passed")
-    nt = R.tests(lambda t: isinstance(t, ast.UnaryOp) and isinstance(t.op, ast.Not) and isinstance(t.operand, ast.Call)
-                 and dotted(t.operand.func) == "need")
-    ctx.check(bool(nt) and any(R.dominated_by_edge([r], nt[0], "T") for r in false_rets), "T1-checkEnter", fr,
-              "if not need(): return False", "the first unsatisfied before-enter condition refuses entry")
-    ot = R.tests(lambda t: isinstance(t, ast.BoolOp) and isinstance(t.op, ast.And) and
-                 {src(v) for v in t.values} == {"aux.main", "aux.main is not self", "aux.main not in exits"})
-    ctx.check(bool(ot) and any(R.dominated_by_edge([r], ot[0], "T") for r in false_rets), "T1-checkEnter", fr,
-              "aux.main and aux.main is not self and aux.main not in exits => False",
-              "a frame whose original auxiliary is owned by another frame that is not being exited must not be entered")
-    st = R.tests(lambda t: isinstance(t, ast.UnaryOp) and isinstance(t.op, ast.Not) and isinstance(t.operand, ast.Call)
-                 and dotted(t.operand.func) == "aux.checkStart")
-    ctx.check(bool(st) and any(R.dominated_by_edge([r], st[0], "T") for r in false_rets), "T1-checkEnter", fr,
-              "if not aux.checkStart(): return False", "an auxiliary whose first-frame conditions fail refuses entry of its main frame")
-    ctx.check(bool(nt) and every_iteration_passes(R, bl[0], nt), "T1-checkEnter", fr,
-              "every before-enter condition is evaluated", "an iteration of the beacts loop skips the condition")
-    ctx.check(bool(ot) and bool(st) and every_iteration_passes(R, al[0], ot) and every_iteration_passes(R, al[0], st),
-              "T1-checkEnter", fr, "every auxiliary gets the ownership test and checkStart",
-              "an iteration of the auxes loop skips the ownership test or the first-frame check")
+    frame_check_enter(ctx, "T1-checkEnter")
     # Suspender.action
     sa = ctx.fn("acting", "Suspender.action")
     S = FuncView(ctx, sa)
@@ -703,6 +708,8 @@ def aux_lifetime(ctx):
         any(A.under([r], st[0]) for r in raises)
     ctx.check(ok, "T1-owner", ra, "original: registered once per name in framer.auxes, a different aux of the same name is refused",
               "auxiliary names are unique within a framer")
+    # ... and at run time: a frame is not entered while its original auxiliary is owned by a frame that is not being exited
+    frame_check_enter(ctx, "T1-owner")
     cd = ctx.fn("completing", "CompleteDone.action")
     C = FuncView(ctx, cd)
     lp = C.need(loops_over(C, "taskers"), "loop over taskers")
@@ -722,7 +729,17 @@ def aux_lifetime(ctx):
         got = [canon(e) for k, e, h in peval(N, {"tasker": word}) if k == "return" and e is not None]
         # the frame-less form (no `in frame`) is decided separately below; with a frame the result is the documented reduction
         got = [g for g in got if g != "tasker.done" and g != "'%s'.done" % word]
-        ctx.check(bool(got) and all(g == want for g in got), "T9-done", nd, "tasker == %r -> %s (got %s)" % (word, want, sorted(set(got))),
+        okq = bool(got) and all(g == want for g in got)
+        if not okq and set(got) == {"True", "False"}:
+            # explicit loop form of the same reduction (normal form of `result = any(..)` / `all(..)`)
+            from ..rules import quantifier_loops
+            qs = [q for q in quantifier_loops(N) if q["iter"] == "frame.auxes" and ("tasker == %r" % word) in N.facts(q["node"])]
+            if word == "any":
+                okq = len(qs) == 1 and qs[0]["kind"] == "any" and qs[0]["test"] == qs[0]["var"] + ".done" and qs[0]["sets"] is True
+            else:
+                okq = len(qs) == 1 and qs[0]["kind"] == "all" and qs[0]["test"] == "not %s.done" % qs[0]["var"] and qs[0]["sets"] is False and \
+                    "frame.auxes" in N.facts(qs[0]["node"])
+        ctx.check(okq, "T9-done", nd, "tasker == %r -> %s (got %s)" % (word, want, sorted(set(got))),
                   "`if aux %s is done` must observe the completion state of the frame's auxiliaries" % word)
     named = {canon(e) for k, e, h in peval(N, {"tasker": "SOMEAUX"}) if k == "return" and e is not None}
     inline_guard = "'SOMEAUX'.doneif'SOMEAUX'inframe.auxeselseFalse"
